@@ -74,3 +74,11 @@ def register(check, not_yet):
           "Bound: sequences of length <= 2 over {nil,true,false,0,1,2} (hashing realises integers, so the element universe is finite); "
           "C-level hash functions run concretely.",
           "CrossHair (z3) symbolic execution of the real equality/hash code", "DESIGN.md section 4 C05", "A:crosshair")
+    check("C10", "other",
+          "Bounded symbolic verification of name munging: util.munge is interpreted by PySym from its AST (replacement table read from "
+          "_MUNGE_REPLACEMENTS) over position-flattened symbolic strings (code points as z3 Ints); one SMT query per collision class "
+          "(each table character, the reserved-word suffix, '..') and a final query proving munge injective on all names outside those "
+          "classes. Each sat model is replayed through the real compiler: (def a 1) (def b 2) a => 2, in both linking modes.",
+          "Bound: |a| <= 2-3, |b| <= |a|-1+len(replacement), every code point a symbol may contain. The collision classes are recorded "
+          "known findings (munge is non-injective by design); a collision outside them is a violation. def/alias/refer histories are not yet checked.",
+          "SMT (z3 LIA) over a symbolic interpretation of the real munge AST, flattened string encoding", "DESIGN.md section 4 C10", "B:pysym")
